@@ -335,6 +335,7 @@ def readSubframes (layout : Layout) (checkWarm : Bool) (a : Assign) (bs bps : Na
 structure Parsed where
   frame : Frame
   used : Nat                    -- bytes consumed
+  hdrUsed : Nat                 -- bytes of the header (incl. CRC-8)
   crc8ok : Bool
   crc16ok : Bool
 deriving Repr
@@ -349,7 +350,7 @@ def parseHeaderBytes (si : Option SInfo) (bytes : List Nat) : Res (Header × Nat
 
 /-- parse one frame from the front of `bytes`; checksum verdicts are returned, not enforced,
     so that each client can apply them in its own order -/
-def parseFrame (layout : Layout) (checkWarm : Bool) (si : Option SInfo) (bytes : List Nat) : Res Parsed :=
+def parseFrame (layout : Layout) (checkWarm : Bool) (si : Option SInfo) (bytes : List Nat) (enforceCrc8 : Bool := true) : Res Parsed :=
   match readHeaderFields si (bytesToBits bytes) with
   | .error e => .error e
   | .ok (h, rest) =>
@@ -358,7 +359,7 @@ def parseFrame (layout : Layout) (checkWarm : Bool) (si : Option SInfo) (bytes :
     | .ok () =>
       let hdrBytes := bytes.length - rest.length / 8
       let c8 := crc8Valid (crc8 (bytes.take hdrBytes))
-      if !c8 then .error (.err "Crc8Mismatch") else
+      if enforceCrc8 && !c8 then .error (.err "Crc8Mismatch") else
       match readSubframes layout checkWarm h.assign h.blockSize h.bps h.assign.count 0 rest with
       | .error e => .error e
       | .ok (subs, rest2) =>
@@ -368,7 +369,7 @@ def parseFrame (layout : Layout) (checkWarm : Bool) (si : Option SInfo) (bytes :
         | .error e => .error e
         | .ok (c16, rest3) =>
           let used := bytes.length - rest3.length / 8
-          .ok { frame := { hdr := h, subs, padding, footer := c16 }, used,
+          .ok { frame := { hdr := h, subs, padding, footer := c16 }, used, hdrUsed := hdrBytes,
                 crc8ok := c8, crc16ok := crc16Valid (crc16 (bytes.take used)) }
 
 /-! ### serializer (RFC layout; inverse of the parser on well-formed frames) -/
@@ -436,11 +437,13 @@ def writeHeaderFields (h : Header) : Bits :=
         else [])
 
 /-- serialize with the checksums *recomputed* (the stored `hcrc`/`footer` fields are ignored) -/
-def Frame.serialize (f : Frame) : List Nat :=
+def Frame.serializeWith (c8 c16 : List Nat → Nat) (f : Frame) : List Nat :=
   let hb := bitsToBytes (writeHeaderFields f.hdr)
-  let hdr := hb ++ [crc8 hb]
+  let hdr := hb ++ [c8 hb]
   let body := bitsToBytes (writeSubframes f.hdr.assign f.hdr.bps f.subs 0 ++ f.padding)
   let all := hdr ++ body
-  all ++ [crc16 all / 256, crc16 all % 256]
+  all ++ [c16 all / 256, c16 all % 256]
+
+def Frame.serialize (f : Frame) : List Nat := f.serializeWith crc8 crc16
 
 end Flac
